@@ -15,7 +15,7 @@
     declaration_order_pipeline first_match_wins identity_body_is_identity_partial
     once_hint_irrelevant buffer_hint_irrelevant lazy_eq_eager window_footprint
     matcher_state_in_sync output_wellnested select_keeps_nesting
-    lawful_single lawful_simple positional_not_lawful root_context_not_matched
+    lawful_single lawful_simple lawful_generic positional_not_lawful root_context_not_matched
 -/
 import Genshi.Lemmas.MatchSync
 import Genshi.Lemmas.MatchPipe
@@ -223,6 +223,16 @@ theorem lawful_simple (frags : List (List Str)) (body : List BItem) (h : Hints) 
     Lawful (mkMT (.simple frags) body h) := by
   intro st tg at_ u u'
   simp only [mkMT, MT.ofHints, PathSpec.step, simpleStart_tail]
+
+/-- GenericStrategy (predicate-free) pushes one position list per START and pops one per END: it is
+    lawful as long as its root entry is in place (a non-empty stack, which a well-nested stream keeps). -/
+theorem lawful_generic (steps : List (GAxis × GTest)) (st : PSt) (tg : QName) (at_ : AttrList) (u u' : Bool)
+    (h : st.gstack ≠ []) :
+    ((PathSpec.generic steps).step ((PathSpec.generic steps).step st (.start tg at_) u).1 (.end_ tg) u').1 = st := by
+  simp only [PathSpec.step, genStart]
+  cases hg : st.gstack with
+  | nil => exact absurd hg h
+  | cons top rest => simp [← hg]
 
 /-- A positional predicate counts START events: the END does not undo it, the law fails
     (its counter is per test closure, advanced by every call). -/
